@@ -143,15 +143,39 @@ def ref_bosonic(op, p, modes, n, means, covs):
 def h_bosonic(g, op, modes, n, what, J=2):
     be = C.bosonic_backend(g, n, J=J)
     w0, m0, c0 = C.bosonic_snapshot(be)
-    p = declare(g, op)
-    getattr(be, op)(*p, *modes)
+    cptp = None
+    if op.startswith("gaussian_cptp"):
+        # deterministic Gaussian channel given by matrices: X arbitrary real 2x2, Y symmetric real 2x2 or omitted
+        X = g.rmat("X", 2)
+        Y = g.rsymm("Y", 2) if op.endswith(".Y") else None
+        try:
+            be.gaussian_cptp(list(modes), X, Y)
+        except (IndexError, ValueError, TypeError) as e:
+            g.fact("gaussian_cptp%s runs" % ("" if Y is not None else " without Y"), False, detail="%s: %s" % (type(e).__name__, e))
+            return
+        p = []
+        k = modes[0]
+        Xf = fn.eye(2 * n, c0[0])
+        Yf = 0 * fn.eye(2 * n, c0[0])
+        for a_ in range(2):
+            for b_ in range(2):
+                Xf[2 * k + a_, 2 * k + b_] = X[a_, b_] + 0 * Xf[2 * k + a_, 2 * k + b_]
+                if Y is not None:
+                    Yf[2 * k + a_, 2 * k + b_] = Y[a_, b_] + 0 * Yf[2 * k + a_, 2 * k + b_]
+        cptp = (Xf, Yf)
+    else:
+        p = declare(g, op)
+        getattr(be, op)(*p, *modes)
     c = be.circuit
     w1, m1, c1 = c.weights, c.means, c.covs
     others = [i for i in range(n) if i not in modes]
     oq = [q for i in others for q in (2 * i, 2 * i + 1)]
     tq = [q for i in modes for q in (2 * i, 2 * i + 1)]
     if what == "ref":
-        mr, cr = ref_bosonic(op, p, modes, n, m0, c0)
+        if cptp is not None:
+            mr, cr = C.phase_apply(m0, c0, cptp[0], 0 * cptp[0][0], cptp[1])
+        else:
+            mr, cr = ref_bosonic(op, p, modes, n, m0, c0)
         g.eq("weights", w1, w0)
         g.eq("means", m1, mr)
         g.eq("covs", c1, cr)
@@ -176,6 +200,11 @@ def h_bosonic(g, op, modes, n, what, J=2):
 def jobs(ctx, what, prefix=""):
     """register one job per (backend, op, ordered target choice)"""
     n = 3 if not ctx.thorough else 4
+    for op in ("gaussian_cptp.Y", "gaussian_cptp.noY"):
+        for k in (0, 1):
+            ctx.add("%sbosonic.%s[%d]" % (prefix, op, k), h_bosonic, {"op": op, "modes": [k], "n": 2, "what": what, "J": 2},
+                    modules=C.bosonic_modules, functions=["BosonicBackend.gaussian_cptp", "BosonicModes.{expandS,expandXY,apply_channel}"],
+                    bounds={"modes": 2, "targets": [k], "peaks": 2, "X": "arbitrary real 2x2", "Y": "symmetric real 2x2 / omitted"})
     for op, (decl, k) in OPS.items():
         for modes in C.ordered_choices(n, k):
             if not ctx.thorough and n == 3 and k == 1 and modes[0] == 0 and what != "ref":
